@@ -617,6 +617,159 @@ Section M1.
   Proof using wf. exact (proj2 (proj2 (step_frame s t c0)) t'). Qed.
   Lemma step_pool_len s t c0 : length (ms_pool (fst (mstep g s t c0))) = length (ms_pool s).
   Proof using wf. exact (proj1 (proj2 (step_frame s t c0))). Qed.
+  (* ---------- the counter sum of a tree plus what the in-flight gets have taken from it ---------- *)
+  (* frames a lower get / get_at has already subtracted from the huge entries of its tree *)
+  Definition taken (x : thr) : N :=
+    match x with TRun c _ => if is_put c then 0 else c_n c - lhold g x | _ => 0 end.
+  Definition taken_in (i : N) (x : thr) : N :=
+    match x with TRun c _ => if c_frame c / TF =? i then taken x else 0 | _ => 0 end.
+
+  (* the share of thread x in huge frame h: what it has pending under the counter, a whole entry it claimed *)
+  Definition tkw (fm h : N) (x : thr) : N := (if h <? nbf g fm then pend g h x else 0) + HF * hfr g h x.
+
+  Lemma tkw_bound s h : Inv g s -> e_free (entv s h) + sumf (tkw (ms_frames s) h) (ms_pool s) <= HF.
+  Proof using wf.
+    intros I. unfold tkw. rewrite sumf_add, sumf_mulc. pose proof (HF_lt_MARK g wf) as HM. pose proof (ROWS_pos g wf) as PR.
+    destruct (N.eq_dec (entv s h) MARK) as [He|He].
+    - rewrite He. change (e_free MARK) with 0.
+      assert (Hh : h < nbf g (ms_frames s)) by (apply (ent_nz_lt g s h I); rewrite He; discriminate).
+      destruct (N.ltb_spec h (nbf g (ms_frames s))); [|lia].
+      destruct (K2 g wf s h I Hh He) as [Kp _]. change (sumf (fun x => pend g h x) (ms_pool s)) with (sumf (pend g h) (ms_pool s)).
+      rewrite Kp. pose proof (I_B g s I h Hh He 0 0 PR ltac:(lia)) as B.
+      assert (Hle : sumf (hfr g h) (ms_pool s) <= sumf (fr g h 0 0) (ms_pool s)).
+      { apply sumf_le_in. intros x Hx. apply (hfr_le_fr g wf (ms_frames s)); [|exact PR|lia].
+        exact (proj1 (Forall_forall _ _) (I_L g s I) x Hx). }
+      change (sumf (fun x => hfr g h x) (ms_pool s)) with (sumf (hfr g h) (ms_pool s)). nia.
+    - rewrite (e_free_id _ He). pose proof (I_F g s I h He) as F.
+      change (sumf (fun x => hfr g h x) (ms_pool s)) with (sumf (hfr g h) (ms_pool s)).
+      assert (E0 : sumf (hfr g h) (ms_pool s) = 0) by lia. rewrite E0, N.mul_0_r, N.add_0_r.
+      destruct (N.ltb_spec h (nbf g (ms_frames s))) as [Hh|Hh].
+      + pose proof (K1 g wf s h I Hh He) as K. change (sumf (fun x => pend g h x) (ms_pool s)) with (sumf (pend g h) (ms_pool s)). lia.
+      + rewrite (I_nobf g s I h Hh). rewrite sumf_all_zero by reflexivity. lia.
+  Qed.
+
+  Lemma tree_free_ssum s i : Inv g s -> i < ntab g (ms_frames s) ->
+    tree_free g (lower_of s) i = ssum THUGE (fun k => e_free (entv s (i * THUGE + k))).
+  Proof using wf.
+    intros I Hi. rewrite tree_free_sumf. cbn [lower_of ents]. rewrite sumf_nth_error.
+    pose proof THUGE_nat' as EN. pose proof (I_len2 g s I) as Hl.
+    assert (Hlen : length (firstn (thuge_nat g) (skipn (nn (i * THUGE)) (ms_ents s))) = thuge_nat g).
+    { rewrite firstn_length, skipn_length, Hl. unfold nn. nia. }
+    rewrite Hlen, <- EN. apply ssum_ext. intros k Hk.
+    rewrite nth_error_firstn' by (unfold nn; lia). rewrite nth_error_skipn'.
+    unfold entv, rd_ent. replace (nn (i * THUGE + k)) with (nn (i * THUGE) + nn k)%nat by (unfold nn; lia).
+    destruct (nth_error (ms_ents s) (nn (i * THUGE) + nn k)); reflexivity.
+  Qed.
+
+  Lemma in_tree_term (f : N -> N) h0 T : h0 / THUGE = T -> f h0 <= ssum THUGE (fun k => f (T * THUGE + k)).
+  Proof.
+    intros E. pose proof (THUGE_pos g) as PT. pose proof (N.div_mod h0 THUGE ltac:(lia)) as D.
+    pose proof (N.mod_lt h0 THUGE ltac:(lia)) as M.
+    replace h0 with (T * THUGE + h0 mod THUGE) at 1 by (subst T; lia).
+    apply (ssum_ge THUGE (fun k => f (T * THUGE + k)) (h0 mod THUGE) M).
+  Qed.
+  Lemma small_taken fm x h0 T n : h0 < nbf g fm -> h0 / THUGE = T -> pend g h0 x = n ->
+    n <= ssum THUGE (fun k => tkw fm (T * THUGE + k) x).
+  Proof.
+    intros Hh E Hp. etransitivity; [|apply (in_tree_term (fun h => tkw fm h x) h0 T E)].
+    cbv beta. unfold tkw. destruct (N.ltb_spec h0 (nbf g fm)); lia.
+  Qed.
+  Lemma huge_taken fm x a cnt T : ent_own g x a cnt -> (forall r, r < cnt -> (a + r) / THUGE = T) ->
+    cnt * HF <= ssum THUGE (fun k => tkw fm (T * THUGE + k) x).
+  Proof.
+    intros O Hin. pose proof (THUGE_pos g) as PT.
+    destruct (N.eq_dec cnt 0) as [->|Hc]; [lia|].
+    pose proof (Hin 0 ltac:(lia)) as E0. rewrite N.add_0_r in E0. pose proof (Hin (cnt - 1) ltac:(lia)) as E1.
+    pose proof (N.div_mod a THUGE ltac:(lia)) as D0. pose proof (N.mod_lt a THUGE ltac:(lia)) as M0.
+    pose proof (N.div_mod (a + (cnt - 1)) THUGE ltac:(lia)) as D1. pose proof (N.mod_lt (a + (cnt - 1)) THUGE ltac:(lia)) as M1.
+    rewrite E0 in D0. rewrite E1 in D1. set (k0 := a mod THUGE) in *.
+    assert (Hfit : k0 + cnt <= THUGE) by lia.
+    rewrite <- (ssum_inb_in THUGE k0 cnt Hfit), N.mul_comm, <- ssum_mulc.
+    apply ssum_le. intros k Hk. unfold tkw. rewrite (EO_hfr g x a cnt O).
+    replace (inb a cnt (T * THUGE + k)) with (inb k0 cnt k) by (unfold inb; lia). lia.
+  Qed.
+
+  Lemma taken_le_tkw s t x i : Inv g s -> nth_error (ms_pool s) t = Some x ->
+    taken_in i x <= ssum THUGE (fun k => tkw (ms_frames s) (i * THUGE + k) x).
+  Proof using wf.
+    intros I Ht. pose proof (local_of' g s t _ I Ht) as L.
+    destruct x as [l|c p|z c]; cbn [taken_in]; try lia.
+    destruct (N.eqb_spec (c_frame c / TF) i) as [<-|]; [|lia].
+    unfold taken. destruct (is_put c) eqn:Hp; [lia|].
+    cbn [local_b] in L. apply andb_true_iff in L. destruct L as [Hc L].
+    assert (Hsm : forall h0, h0 < nbf g (ms_frames s) -> h0 / THUGE = c_frame c / TF -> pend g h0 (TRun c p) = c_n c ->
+              c_n c - lhold g (TRun c p) <= ssum THUGE (fun k => tkw (ms_frames s) (c_frame c / TF * THUGE + k) (TRun c p))).
+    { intros h0 H1 H2 H3. etransitivity; [|apply (small_taken _ _ h0 _ (c_n c) H1 H2 H3)]. lia. }
+    assert (Hat : is_getat c = true -> small g c = true -> c_huge g c < nbf g (ms_frames s)).
+    { intros Ha Hs. apply (small_call_decomp g wf (ms_frames s) c Hc Hs). apply is_getat_not_get, Ha. }
+    destruct p; cbn [lpc] in L;
+      try (destruct x; cbn [ctx_ok] in L);
+      try (exfalso; rewrite Hp in L; cbn [andb] in L; rewrite ?andb_false_r in L; discriminate L).
+    all: try (destruct c; try discriminate Hp; cbn [lhold]; lia).
+    all: try (apply (Hsm (child_h g c j)); [lia | apply tree_child | gsimp; rewrite N.eqb_refl; reflexivity]).
+    all: try (apply (Hsm (c_huge g c)); [apply Hat; lia | apply tree_huge | gsimp; rewrite N.eqb_refl; reflexivity]).
+    - (* HC *) destruct (hc_arith c q ltac:(lia) ltac:(lia)) as [A _].
+      etransitivity; [|apply (huge_taken (ms_frames s) _ (group_h g c gi) q _ (own_get_HC g wf c gi q Hp))].
+      + destruct c; try discriminate Hp; cbn [lhold]; lia.
+      + intros r Hr. apply (tree_group (ms_frames s)); lia.
+    - (* HU *) destruct (hc_arith c q ltac:(lia) ltac:(lia)) as [A _].
+      etransitivity; [|apply (huge_taken (ms_frames s) _ (group_h g c gi) (q + 1) _ (own_get_HU g wf c gi q Hp))].
+      + destruct c; try discriminate Hp; cbn [lhold]; lia.
+      + intros r Hr. apply (tree_group (ms_frames s)); lia.
+  Qed.
+
+  Lemma inv_tree_free_taken s i :
+    Inv g s -> i < ntab g (ms_frames s) ->
+    tree_free g (lower_of s) i + sumf (taken_in i) (ms_pool s) <= TF.
+  Proof using wf.
+    intros I Hi. rewrite (tree_free_ssum s i I Hi).
+    assert (H1 : sumf (taken_in i) (ms_pool s)
+                 <= sumf (fun x => ssum THUGE (fun k => tkw (ms_frames s) (i * THUGE + k) x)) (ms_pool s)).
+    { apply sumf_le_in. intros x Hx. apply In_nth_error in Hx. destruct Hx as (t & Ht). exact (taken_le_tkw s t x i I Ht). }
+    rewrite <- (ssum_sumf THUGE (fun k x => tkw (ms_frames s) (i * THUGE + k) x)) in H1.
+    etransitivity; [apply N.add_le_mono_l, H1|]. rewrite <- ssum_add.
+    etransitivity; [apply (ssum_le _ _ (fun _ => HF)); intros k _; apply (tkw_bound s (i * THUGE + k) I)|].
+    rewrite ssum_const. unfold Bitfield.TF. lia.
+  Qed.
+  (* ---------- a tree that contains a held block is not entirely free ---------- *)
+  Lemma ssum_lt_one n (f : N -> N) B k0 : (forall k, k < n -> f k <= B) -> k0 < n -> f k0 < B -> ssum n f < n * B.
+  Proof.
+    intros Hle Hk Hlt.
+    assert (H : ssum n (fun k => f k + b2n (k =? k0)) <= ssum n (fun _ => B)).
+    { apply ssum_le. intros k Hkn. specialize (Hle k Hkn). destruct (N.eqb_spec k k0) as [->|]; cbn [b2n]; lia. }
+    rewrite ssum_add, ssum_eqb, ssum_const in H. destruct (N.ltb_spec k0 n); cbn [b2n] in H; lia.
+  Qed.
+  Lemma lt_ntab fm f : f < fm -> f / TF < ntab g fm.
+  Proof using wf.
+    intros H. pose proof (TF_pos g) as PT. destruct (div_ceil_spec fm TF ltac:(lia)) as [H1 _].
+    unfold ntab. apply N.div_lt_upper_bound; [lia|]. lia.
+  Qed.
+
+  Lemma inv_held_tree_free s F K :
+    Inv g s -> In (F, K) (ms_held s) -> tree_free g (lower_of s) (F / TF) < TF.
+  Proof using wf.
+    intros I Hin. pose proof (HF_pos g) as PH. pose proof (THUGE_pos g) as PT.
+    pose proof (proj1 (Forall_forall _ _) (I_H g s I) _ Hin) as Hok. unfold blk_ok in Hok. cbn [fst snd] in Hok.
+    pose proof (pow2_pos K) as PK. assert (HF0 : F < ms_frames s) by lia.
+    destruct (small_decomp g wf F 0 (N.mod_1_r F)) as (E & Hr & Hi); [destruct wf; lia|].
+    set (h := F / HF) in *. set (r := (F / 64) mod ROWS) in *. set (b := F mod 64) in *.
+    assert (Hh : h < nbf g (ms_frames s)) by (apply lt_nbf; exact HF0).
+    assert (Ht : h / THUGE = F / TF) by (unfold h; rewrite N.div_div, TF_eq by lia; reflexivity).
+    (* the entry of the huge frame of F is not completely free *)
+    assert (Hlt : e_free (entv s h) < HF).
+    { destruct (N.eq_dec (entv s h) MARK) as [He|He]; [rewrite He; exact PH|].
+      rewrite (e_free_id _ He). pose proof (K1 g wf s h I Hh He) as Kq.
+      assert (1 <= gheld g s h); [|lia].
+      etransitivity; [|apply (gsum_ge g (fun r i => heldc (fidx g h r i) (ms_held s)) r b Hr Hi)].
+      cbv beta. rewrite <- E.
+      etransitivity; [|apply (sumf_ge_in (fun b0 => b2n (cover b0 F)) (ms_held s) (F, K) Hin)].
+      cbv beta. unfold cover, inb. cbn [fst snd]. lia. }
+    rewrite (tree_free_ssum s (F / TF) I (lt_ntab _ _ HF0)).
+    pose proof (N.div_mod h THUGE ltac:(lia)) as D. pose proof (N.mod_lt h THUGE ltac:(lia)) as M. rewrite Ht in D.
+    apply (ssum_lt_one THUGE _ HF (h mod THUGE)); [|exact M|].
+    - intros k _. pose proof (tkw_bound s (F / TF * THUGE + k) I). lia.
+    - replace (F / TF * THUGE + h mod THUGE) with h by lia. exact Hlt.
+  Qed.
 End M1.
 
 Print Assumptions view_step.
@@ -630,3 +783,5 @@ Print Assumptions step_held.
 Print Assumptions step_frames.
 Print Assumptions step_pool_other.
 Print Assumptions step_pool_len.
+Print Assumptions inv_tree_free_taken.
+Print Assumptions inv_held_tree_free.
